@@ -49,6 +49,30 @@ func genFaultOps(r *gen.Rand, cl *client, ci int, mw bool) []op {
 	return ops
 }
 
+// genSimpleOps: n ops that only read / write / delete keys (sget: also Store.Get under the
+// middleware, which must be refused).
+func genSimpleOps(r *gen.Rand, cl *client, ci, n int, sget bool) []op {
+	var ops []op
+	for ; n > 0; n-- {
+		switch r.PickW(2, 4, 1, 1) {
+		case 0:
+			ops = append(ops, op{K: "get", Key: gen.Pick(r, keyPool)})
+		case 1:
+			cl.seq++
+			ops = append(ops, op{K: "set", Key: gen.Pick(r, keyPool), Val: mkVal(ci, cl.seq)})
+		case 2:
+			ops = append(ops, op{K: "del", Key: gen.Pick(r, keyPool)})
+		default:
+			if sget {
+				ops = append(ops, op{K: "sget"})
+			} else {
+				ops = append(ops, op{K: "get", Key: gen.Pick(r, keyPool)})
+			}
+		}
+	}
+	return ops
+}
+
 func applyOps(data map[string]string, ops []op) map[string]string {
 	out := copyMap(data)
 	for _, o := range ops {
@@ -119,6 +143,7 @@ func (h *hist) doFaulted(rq *request) bool {
 	var em []seen
 	if resp != nil {
 		em = h.emissions(resp, w.now)
+		h.otherName = nil
 		out = fmt.Sprintf("status=%d id=%s fresh=%v data=%v emitted=%s", resp.Status, ob.Start.View.ID, ob.Start.View.Fresh, ob.Start.View.Data, fmtSeen(em))
 	} else {
 		e.Stat("fault-requests-panicked(not judged)", 1)
